@@ -236,13 +236,20 @@ func TileShape(r *core.Rng, target int) ([]byte, string) {
 		head := "<x:xmpmeta xmlns:x='adobe:ns:meta/'><rdf:RDF xmlns:rdf='http://www.w3.org/1999/02/22-rdf-syntax-ns#'><rdf:Description rdf:about='' xmlns:dc='http://purl.org/dc/elements/1.1/' xmlns:xmp='http://ns.adobe.com/xap/1.0/' xmlns:tiff='http://ns.adobe.com/tiff/1.0/' xmlns:xmpMM='http://ns.adobe.com/xap/1.0/mm/' xmlns:stEvt='http://ns.adobe.com/xap/1.0/sType/ResourceEvent#'"
 		if u[0] == '<' {
 			head += ">"
+			if r.Chance(1, 4) {
+				// the units are the items of an array under a typed property (date, identifier,
+				// number, text): every item goes through that property's value parser
+				prop := r.PickStr("xmp:CreateDate", "xmp:ModifyDate", "exif:DateTimeOriginal", "xmpMM:InstanceID", "xmpMM:DocumentID", "exif:FNumber", "xmp:Rating", "dc:subject", "dc:creator", "tiff:Make")
+				head += "<" + prop + "><rdf:" + r.PickStr("Seq", "Bag", "Alt") + ">"
+				u = r.PickStr("<a:b>x", "<rdf:li>x</rdf:li>", "<rdf:li>2020</rdf:li>", "<rdf:li/>", "<rdf:li>a:b:c</rdf:li>", "<rdf:li>2020-13-45T99:99:99</rdf:li>", "<rdf:li>1/0</rdf:li>")
+			}
 		}
 		out := append([]byte(head), rep([]byte(u))...)
 		if u[0] != '<' {
 			out = append(out, '>')
 		}
 		out = append(out, "</rdf:Description></rdf:RDF></x:xmpmeta>"...)
-		return out, fmt.Sprintf("tiles xmp unit=%q n=%d len=%d", u, (len(out)-len(head))/len(u), len(out))
+		return out, fmt.Sprintf("tiles xmp unit=%q n=%d len=%d in=%q", u, (len(out)-len(head))/len(u), len(out), head[len(head)-40:])
 	}
 }
 
